@@ -41,6 +41,48 @@ Theorem C12_ts_server_refusals_are_violations : forall sc e,
 Proof. exact ts_server_some_named. Qed.
 Print Assumptions C12_ts_server_refusals_are_violations.
 
+(* ---- collisions: the field that carries the colliding name may be of any kind ------------------------- *)
+(* no hypothesis on f_card f (singular, repeated, map, proto3 optional = synthetic oneof in the descriptor) nor on
+   f_oneof f beyond "not a member of THIS oneof" (so members of a second plain or annotated oneof count) *)
+Theorem C12_discriminator_collision_any_sibling_kind : forall sc m o f,
+  In o (m_oneofs m) -> oneof_configured o = true -> In f (m_fields m) -> in_oneof o f = false ->
+  json_name (f_name f) = o_discriminator o ->
+  oneof_msg_check sc m <> None /\ In (viol RDiscriminatorCollision (o_name o)) (message_violations sc m).
+Proof. exact C12_disc_collision_any_sibling_lemma. Qed.
+Print Assumptions C12_discriminator_collision_any_sibling_kind.
+
+Theorem C12_flattened_child_collision_any_sibling_kind : forall sc m o f v c,
+  In o (m_oneofs m) -> oneof_configured o = true -> o_flatten o = true ->
+  In f (m_fields m) -> in_oneof o f = false ->
+  In v (variants m o) -> In c (kind_children sc (f_kind v)) -> snd c = json_name (f_name f) ->
+  oneof_msg_check sc m <> None /\ In (viol ROneofFlattenChildCollision (o_name o)) (message_violations sc m).
+Proof. exact C12_flat_child_collision_any_sibling_lemma. Qed.
+Print Assumptions C12_flattened_child_collision_any_sibling_kind.
+
+Theorem C12_flatten_collision_any_sibling_kind : forall sc m f g c,
+  (forall x, In x (m_fields m) -> flatten_field_check m x = None) ->
+  In f (m_fields m) -> is_flatten f = false ->
+  In g (m_fields m) -> well_formed_flatten g = true -> In c (kind_children sc (f_kind g)) ->
+  flatten_prefix g ++ snd c = json_name (f_name f) ->
+  flatten_msg_check sc m <> None /\ In (viol RFlattenCollision (f_name g)) (message_violations sc m).
+Proof. exact C12_flatten_collision_any_sibling_lemma. Qed.
+Print Assumptions C12_flatten_collision_any_sibling_kind.
+
+(* instances evaluated through the whole pipeline: `optional string kind`, `optional Addr kind`, a member of a second
+   plain / annotated oneof, a map, next to oneof content {discriminator: "kind", flatten: true}; and children of the
+   flattened variant against an optional field / a member of the second oneof; the near miss is accepted *)
+Example C12_sibling_kinds :
+  refused (w_sibling [fld "kind" 2 KString Optional] []) = Some (EDiscCollision, EDiscCollision) /\
+  refused (w_sibling [fld "kind" 2 (KMessage (s "p.Addr")) Optional] []) = Some (EDiscCollision, EDiscCollision) /\
+  refused (w_sibling [in_oneof_named "other" (fld "kind" 2 KString Singular)] [plain_oneof]) = Some (EDiscCollision, EDiscCollision) /\
+  refused (w_sibling [in_oneof_named "other" (fld "kind" 2 KString Singular)] [annotated_oneof]) = Some (EDiscCollision, EDiscCollision) /\
+  refused (w_sibling [fld "kind" 2 KString (MapOf KString)] []) = Some (EDiscCollision, EDiscCollision) /\
+  refused (w_sibling [fld "street" 2 KString Optional] []) = Some (EOneofFlatChildCollision, EOneofFlatChildCollision) /\
+  refused (w_sibling [in_oneof_named "other" (fld "zip_code" 2 KInt32 Singular)] [annotated_oneof]) = Some (EOneofFlatChildCollision, EOneofFlatChildCollision) /\
+  defects_C12 (w_sibling [fld "kind" 2 KString Optional] []) = [] /\
+  go_http_accepts (w_sibling [fld "kinds" 2 KString Optional; in_oneof_named "other" (fld "kind_b" 3 KString Singular)] [annotated_oneof]) = None.
+Proof. exact C12_sibling_kinds_lemma. Qed.
+
 (* ---- the gaps: soundness refuted ------------------------------------------------------------------ *)
 Theorem C12_refuted_repeated_field_as_path_variable :
   exists sc, dom_C12 sc = true /\ defects_C12 sc = [RepeatedFieldAsPathVariable] /\
